@@ -63,6 +63,9 @@ def plan(prop, tier, seed):
     if prop in ('C03', 'C04', 'C05', 'C06', 'C07', 'C08', 'C09', 'C10'):
         for t in corpus.biglat(seed, big=(tier == 'thorough')):
             out.append((t, False))
+    if prop == 'C07' and tier == 'thorough':
+        for t in corpus.marathon(seed):
+            out.append((t, False))
     if prop not in ('C18', 'C15', 'C16'):
         for t in corpus.hugethin(seed, big=(tier == 'thorough')) + corpus.twins(seed):
             out.append((t, False))
